@@ -33,7 +33,10 @@ EXPLANATION = (
     "by finite-model interpretation of their syntax trees (no code of the repository is run; the interpreter walks the trees "
     "on dict/bytes/int model values and follows helpers): the range certainty is 1 exactly when at least one response was "
     "recorded and none failed (all aggregates with 0..3 responses), and every decoded answer 0..3 is counted once in its own "
-    "bucket. Where the symbolic reading does not recognise how a codec / field method is written, the same interpreter decides "
+    "bucket. Refute-only (sample values, no claim beyond the runs): for every hash mode the BonehExactAlgorithm constructor accepts, "
+    "certainty() is interpreted on the aggregate of exactly the honest answers to what attest() attests (the randomised attest(PK, int, bitspace) "
+    "replaced by a recorder) and must score the attested value 1 - 2^-n and a sample value with another profile 0 - the attest function and the "
+    "reference profile of a mode must hash the value alike. Where the symbolic reading does not recognise how a codec / field method is written, the same interpreter decides "
     "the question on model values (round trips of keys, bit-pairs and integers of every size class; operators, inverse, "
     "normalize, intpow, _modinv, equality against reference arithmetic in F_p[x]/(x^2+x+1)). wp_compress - the form in which field "
     "elements go on the wire - is decided on model operands to return the same field element with denominator 1; boneh.decode is "
@@ -2870,6 +2873,7 @@ class _Model:
         self.globals: dict = {}                 # module-level values are created once per model (a module-level table / memo keeps its state)
         self.enums: dict = {}
         self.same_address: dict = {}            # id(model object) -> id(an earlier, freed model object whose address it was given)
+        self.stubs: dict = {}                   # (relpath, qualname) -> python callable(args, kwargs) standing for a function that is NOT interpreted
 
     def model_id(self, o):
         """id() in the interpreted code: the address of a model object; an object created after another one was freed may get its address"""
@@ -2881,6 +2885,10 @@ class _Model:
     def call(self, fi: FuncInfo, args: list, kwargs: dict | None = None, _raw: bool = False):
         """Interpret fi on model values (args include the receiver for methods / classmethods, not for staticmethods)."""
         kwargs = dict(kwargs or {})
+        if self.stubs:
+            stub = self.stubs.get((fi.module.relpath, fi.qualname))
+            if stub is not None:
+                return stub(list(args), kwargs)
         if not _raw and fi.node.decorator_list:
             layers = getattr(fi.node, "_c18_decorators", None)
             if layers is None:
@@ -3631,7 +3639,23 @@ class _Model:
     def instantiate(self, ci, args, kw):
         kind = _record_kind(ci)
         if kind == "enum":
-            raise _NoModel(f"enum lookup by value {ci.name}(...)")
+            # Enum lookup by value: the member whose value equals the argument, ValueError when there is none (plain Enum / IntEnum / StrEnum
+            # classes with literal member values and without a _missing_ hook; flags compose values and are not modelled)
+            bases = {b.rsplit(".", 1)[-1] for b in ci.base_names}
+            names = [k for k, v in ci.attrs.items() if not k.startswith("_") and not isinstance(v, ast.Lambda)]
+            if len(args) != 1 or kw or bases & {"Flag", "IntFlag"} or any(k.lookup("_missing_") is not None for k in [ci]) or not names \
+                    or any(isinstance(ci.attrs[k], ast.Call) for k in names) or isinstance(args[0], (_Obj, _RecTuple)) or _is_class(args[0]):
+                raise _NoModel(f"enum lookup by value {ci.name}(...)")
+            for nm in names:
+                member = self._enum_member(ci, nm, None)
+                value = self.enums[(id(ci.node), nm)][0]
+                if isinstance(value, (int, str, bytes, bool, float, tuple)) and type(value) is type(args[0]) and value == args[0]:
+                    return member
+                if not isinstance(value, (int, str, bytes, bool, float, tuple)):
+                    raise _NoModel(f"enum lookup by value {ci.name}(...)")
+            if any(type(self.enums[(id(ci.node), nm)][0]) is not type(args[0]) for nm in names):
+                raise _NoModel(f"enum lookup by value {ci.name}(...) with a value of another type")
+            raise _Raised("ValueError")
         if kind in ("namedtuple", "dataclass"):
             fields = _record_fields(ci)
             how = _bind_record(fields, len(args), kw) if fields is not None else None
@@ -5086,17 +5110,145 @@ def _check_count_atomic(ctx: Ctx) -> None:
                   "of the true value, which then scores below 1-2^-n after all n answers")
 
 
+_BX_PKG = "ipv8/attestation/wallet/bonehexact/"
+_BX_ALG = _BX_PKG + "algorithm.py"
+_BX_ATT = _BX_PKG + "attestation.py"
+_FORMATS = "ipv8/attestation/default_identity_formats.py"
+
+
+def _honest_profile(value, bitspace) -> dict:
+    """
+    The answer counts an honest prover produces for attest(PK, value, bitspace): the bits of value, left-padded to bitspace,
+    taken in adjacent pairs; each pair is answered with the sum of its two bits (0, 1 or 2).  Reference arithmetic of the
+    check, written from the definition of the bit-pair attestation - not read from the analysed code.
+    """
+    if not (isinstance(value, int) and not isinstance(value, bool) and value >= 0 and isinstance(bitspace, int) and not isinstance(bitspace, bool) and 0 < bitspace <= 4096):
+        raise _NoModel(f"attest() reached with value/bitspace outside the modelled domain ({type(value).__name__}, {bitspace!r})")
+    bits = [int(c) for c in bin(value)[2:]]
+    bits = [0] * (bitspace - len(bits)) + bits
+    out = {0: 0, 1: 0, 2: 0, 3: 0}
+    for i in range(0, len(bits) - 1, 2):
+        out[bits[i] + bits[i + 1]] += 1
+    return out
+
+
+def _hash_mode_candidates(repo) -> list[str]:
+    """every short string constant of the bonehexact package and of the shipped format table: the hash modes the constructor could name"""
+    out: list[str] = []
+    for rel, m in sorted(repo.by_relpath.items()):
+        if not (rel.startswith(_BX_PKG) or rel == _FORMATS):
+            continue
+        for n in ast.walk(m.tree):
+            if isinstance(n, ast.Constant) and isinstance(n.value, str) and 0 < len(n.value) <= 32 and " " not in n.value and n.value not in out:
+                out.append(n.value)
+    for reviewed in ("sha256", "sha256_4", "sha512"):
+        if reviewed not in out:
+            out.append(reviewed)
+    return out
+
+
+def _check_hash_pairing(ctx: Ctx) -> None:
+    """
+    REFUTE-ONLY (model evaluation on sample values; a pass claims nothing beyond the runs made).  For every hash mode that
+    BonehExactAlgorithm.__init__ accepts (candidates: the string constants of the bonehexact package and of the shipped format
+    table) an algorithm object is built by finite-model interpretation and its two public faces are interpreted on a few byte
+    strings: attest(PK, value) - with the randomised module-level attest(PK, int, bitspace) replaced by a recorder - tells which
+    integer over how many bits is attested, i.e. which answers an honest prover gives; certainty(value, aggregate) is then
+    interpreted on exactly that aggregate of honest answers.  It must score 1 - 2^-n for the attested value (n bit pairs), and 0
+    for a sample value whose attested profile differs.  How the mode is wired to its (attest, reference profile) functions -
+    if/elif chain, table, getattr, partial, a spec object - is irrelevant; a mode whose reference profile is computed from another
+    hash or another bit count than its attestation scores the true value 0.
+    """
+    repo = ctx.repo
+    ci = repo.cls("BonehExactAlgorithm", _BX_ALG)
+    generic = repo.func(_BX_ATT, "attest")
+    init = ci.lookup("__init__")
+    for nm in ("attest", "certainty"):
+        if ci.lookup(nm) is None:
+            raise AnalysisError(f"anchor-lost: BonehExactAlgorithm.{nm}")
+    gparams = generic.params()
+    if init is None or len(gparams) != 3:
+        raise AnalysisError("anchor-lost: BonehExactAlgorithm.__init__ / attest(PK, value, bitspace)")
+    samples = (b"attribute value", b"", b"\x00\xff" * 24)
+    accepted: list[str] = []
+    bad = None
+    runs = 0
+    try:
+        for mode in _hash_mode_candidates(repo):
+            profiles = []
+            for v in samples:
+                rec: list = []
+
+                def record(args, kwargs, rec=rec):
+                    bound = dict(zip(gparams, args))
+                    bound.update(kwargs)
+                    if set(bound) != set(gparams):
+                        raise _NoModel("attest() called with another signature")
+                    rec.append((bound[gparams[1]], bound[gparams[2]]))
+                    return _Obj("attestation", serialize=lambda: b"<attestation>")
+                model = _Model(repo, budget=400000)
+                model.stubs[(generic.module.relpath, generic.qualname)] = record
+                try:
+                    alg = model.instantiate(ci, ["fmt", {"fmt": {"algorithm": "bonehexact", "key_size": 32, "hash": mode}}], {})
+                except _Raised:
+                    break                                         # the constructor refuses this mode
+                model.call_method(alg, "attest", [_Obj("PK"), v], {}, None)
+                if len(rec) != 1:
+                    raise _NoModel(f"BonehExactAlgorithm.attest reached attest(PK, value, bitspace) {len(rec)} times")
+                prof = _honest_profile(*rec[0])
+                profiles.append((v, prof, alg, model))
+            else:
+                accepted.append(mode)
+                for v, prof, alg, model in profiles:
+                    n = sum(prof.values())
+                    want = 1 - 0.5 ** n
+                    model.budget = 400000
+                    try:
+                        got = model.call_method(alg, "certainty", [v, dict(prof)], {}, None)
+                    except _Raised as r:
+                        got = f"raises {r.kind}"
+                    runs += 1
+                    if not (isinstance(got, (int, float)) and not isinstance(got, bool) and abs(got - want) < 1e-12) and bad is None:
+                        bad = (mode, v, n, got, f"1 - 2^-{n}", "the attested value itself")
+                    for w, other, _, _ in profiles:
+                        if other == prof:
+                            continue
+                        model.budget = 400000
+                        try:
+                            got = model.call_method(alg, "certainty", [w, dict(prof)], {}, None)
+                        except _Raised as r:
+                            got = f"raises {r.kind}"
+                        runs += 1
+                        if not (isinstance(got, (int, float)) and not isinstance(got, bool) and got == 0) and bad is None:
+                            bad = (mode, w, n, got, "0", f"a value with another bit-pair profile than the attested {v!r}")
+    except _NoModel as e:
+        raise AnalysisError(f"undecided: BonehExactAlgorithm hash-mode wiring: finite-model evaluation stopped at {e}") from None
+    if not accepted:
+        raise AnalysisError("anchor-lost: BonehExactAlgorithm.__init__ accepts none of the candidate hash modes")
+    why = ""
+    if bad is not None:
+        why = (f"BonehExactAlgorithm wired for the hash mode {bad[0]!r}: attest() attests {bad[2]} bit pairs of the value's hash, but on the aggregate of exactly the "
+               f"honest prover's {bad[2]} answers certainty({bad[1]!r}, aggregate) - {bad[5]} - yields {bad[3]} instead of {bad[4]}. The reference profile the "
+               "verifier's aggregate is compared with (self.aggregate_reference / whatever certainty() derives it from) is not the bit-pair profile of the hash that "
+               "attest() attests (self.attest_function): another hash function or another bit count, so the true value is not accepted (or another one is)")
+    ctx.check(bad is None, "protocol-shape", init, init.node,
+              "for every accepted hash mode certainty() scores the aggregate of the honest answers to attest()'s attestation 1 - 2^-n (refute-only, sample values)", why,
+              facts=[f"modes accepted by the constructor: {', '.join(accepted)}", f"{runs} model runs"])
+
+
 def rule_protocol_shape(ctx: Ctx) -> None:
     """
     Two necessary conditions of the protocol clauses that ARE visible in code shape (they do not make the proofs sound):
     a range proof is accepted only on the evidence of at least one verified response, and an incoming attestation is
-    matched to the request whose global time it echoes (each request has its own one-time key).
+    matched to the request whose global time it echoes (each request has its own one-time key); every answer is counted once,
+    atomically; and (refute-only) each accepted hash mode scores the honest aggregate of its own attestation 1 - 2^-n.
     """
     _use(ctx)
     repo = ctx.repo
     pb = repo.method("PengBaoRangeAlgorithm", "certainty", "ipv8/attestation/wallet/pengbaorange/algorithm.py")
     _check_range_certainty(ctx, pb)
     _check_answer_counted(ctx)
+    _check_hash_pairing(ctx)
     _check_count_atomic(ctx)
     _check_decode_stateless(ctx)
     oc = repo.method("AttestationCommunity", "on_attestation_chunk", "ipv8/attestation/wallet/community.py")
@@ -5941,6 +6093,13 @@ WITNESSES = [
      "new": "        in_range = any(v for k, v in aggregate.items() if k != \"attestation\")\n"},
     {"name": "range certainty folds the attestation entry into the verdict", "file": "ipv8/attestation/wallet/pengbaorange/algorithm.py", "rule": "protocol-shape",
      "old": "            if k != \"attestation\":\n                in_range &= v\n", "new": "            in_range &= bool(v)\n"},
+    {"name": "sha512 mode compares the aggregate with the SHA-256 profile", "file": "ipv8/attestation/wallet/bonehexact/algorithm.py", "rule": "protocol-shape",
+     "old": "            self.attest_function = attest_sha512\n            self.aggregate_reference = binary_relativity_sha512\n",
+     "new": "            self.attest_function = attest_sha512\n            self.aggregate_reference = binary_relativity_sha256\n"},
+    {"name": "4-byte mode reference profile covers half of the attested bits", "file": "ipv8/attestation/wallet/bonehexact/attestation.py", "rule": "protocol-shape",
+     "old": "    return binary_relativity(sha256_4_as_int(value), 32)\n", "new": "    return binary_relativity(sha256_4_as_int(value), 16)\n"},
+    {"name": "profile match no longer rejects an over-full bucket", "file": "ipv8/attestation/wallet/bonehexact/attestation.py", "rule": "protocol-shape",
+     "old": "        if v < value[k]:\n            return 0.0\n", "new": ""},
     {"name": "request cache is looked up for every outstanding global time", "file": "ipv8/attestation/wallet/community.py", "rule": "protocol-shape",
      "old": "                    for allowed_glob in self.allowed_attestations.get(peer.mid, [])\n                    if allowed_glob == str(dist.global_time).encode()]\n",
      "new": "                    for allowed_glob in self.allowed_attestations.get(peer.mid, [])]\n"},
